@@ -115,7 +115,33 @@ UNKNOWN = [wire.f_varint(999, 1), wire.f_len(998, b"\x08\x05"), wire.f_i32(997, 
 SPECS = {Oneofs: (ONEOFS_MEMBERS, ONEOFS_PLAIN), Sink: (SINK_MEMBERS, SINK_PLAIN)}
 
 
+class _Any:
+    """Model value 'not pinned down by the statement' (e.g. a message member merged by a decode-into)."""
+    def __repr__(self):
+        return "<any value>"
+
+
+ANY = _Any()
+
+
+def _is_msg(mem) -> bool:
+    return isinstance(mem.variants[0][0](), betterproto.Message)
+
+
+def _harness_origin(e: BaseException) -> bool:
+    tb, last = e.__traceback__, None
+    while tb is not None:
+        last, tb = tb, tb.tb_next
+    if last is None:
+        return False
+    import os
+    here = os.path.dirname(os.path.abspath(__file__))
+    return os.path.abspath(last.tb_frame.f_code.co_filename).startswith(here)
+
+
 def _eqv(a, b) -> bool:
+    if a is ANY or b is ANY:
+        return True
     try:
         return type(a) is type(b) and a == b if not isinstance(a, betterproto.Enum) else a == b
     except Exception:  # noqa: BLE001
@@ -204,7 +230,14 @@ class _OneofRun:
     def _apply_occurrences(self, occs):
         for occ in occs:
             if occ[0] == "m":
-                self._select(occ[1], occ[1].variants[occ[2]][0]())
+                mem = occ[1]
+                if _is_msg(mem) and self.sel[mem.group] == mem.name:
+                    # decoding into an object whose selected member is this very message: the statement
+                    # (about selection) does not say whether the value is replaced or merged
+                    self._select(mem, ANY)
+                    self.stats["probe:decode-into-selected-message-member"] += 1
+                else:
+                    self._select(mem, mem.variants[occ[2]][0]())
 
     # ---- operations ---------------------------------------------------------------------------
     def op_construct(self):
@@ -289,29 +322,83 @@ class _OneofRun:
                 picked.append((mem, k))
         for name, variants in self.plain:
             if t.draw(3, "dict-plain") == 2:
-                d[_camel(name) if t.draw(2, "casing") else name] = variants[0][2]
+                d[_camel(name) if t.draw(2, "casing") else name] = copy.deepcopy(variants[0][2])
         for mem, k in picked:
             key = _camel(mem.name) if t.draw(2, "casing") else mem.name
             d[key] = copy.deepcopy(mem.variants[k][2])
+        null_mem = None
         if t.draw(4, "dict-none") == 3:
             mem = t.choice(self.members, "none-member")
             if mem.name not in d and _camel(mem.name) not in d:
-                d[_camel(mem.name)] = None           # JSON null: must be ignored
-        if form == 0:
-            self._reset()
-            self.m = self.cls.from_dict(d)
-        elif form == 1:
-            self._reset()
-            self.m = self.cls().from_dict(d)
-        else:
-            self.m = self.m.from_dict(d)
-        # dict order is insertion order: the last member of a group in the dict wins
-        order = [k for k in d.keys()]
-        for key in order:
-            for mem, k in picked:
-                if key in (mem.name, _camel(mem.name)):
-                    self._select(mem, mem.variants[k][0]())
-        return f"from_dict[{form}]({', '.join(f'{k}' for k in d)})"
+                d[_camel(mem.name)] = None           # JSON null
+                null_mem = mem
+        per_group: Dict[str, List[Tuple[Member, int]]] = {g: [] for g in self.groups}
+        for mem, k in picked:
+            per_group[mem.group].append((mem, k))
+        ambiguous = any(len(v) >= 2 for v in per_group.values())
+        before = {g: (self.sel[g], self.val.get(self.sel[g])) for g in self.groups}
+        raised = None
+        try:
+            if form == 0:
+                self._reset()
+                self.m = self.cls.from_dict(d)
+            elif form == 1:
+                self._reset()
+                self.m = self.cls().from_dict(d)
+            else:
+                self.m = self.m.from_dict(d)
+        except Exception as e:  # noqa: BLE001
+            if not ambiguous or _harness_origin(e):
+                raise
+            # a dict naming two members of one oneof has no defined meaning (the reference JSON parser
+            # rejects it): raising is as good an answer as picking one
+            raised = type(e).__name__
+            self.stats["probe:from_dict-rejected-two-members-of-a-group"] += 1
+        desc = f"from_dict[{form}]({', '.join(f'{k}' for k in d)})" + (f" -> raised {raised}" if raised else "")
+        for g in self.groups:
+            listed = per_group[g]
+            if form != 2:
+                prev = (None, None)
+            else:
+                prev = before[g]
+            cands: List[Tuple[Optional[str], Any]] = []
+            for mem, k in listed:
+                merged = form == 2 and _is_msg(mem) and before[g][0] == mem.name
+                cands.append((mem.name, ANY if merged else mem.variants[k][0]()))
+            if raised is not None:
+                allowed = [prev] + cands
+            elif len(listed) >= 2:
+                allowed = cands                      # which of them counts as "set last" is not defined
+            elif len(listed) == 1:
+                allowed = cands
+            else:
+                allowed = [prev]
+                if null_mem is not None and null_mem.group == g and prev[0] == null_mem.name:
+                    allowed.append((None, None))     # null for the selected member: ignored or cleared, either is JSON-conformant
+                    self.stats["probe:json-null-for-the-selected-member"] += 1
+            self._adopt(g, allowed, desc)
+        return desc
+
+    def _adopt(self, g: str, allowed, what: str) -> None:
+        """The model takes over whichever of the `allowed` (member, value) pairs the object reports."""
+        if len(allowed) == 1:
+            name, v = allowed[0]
+            self.sel[g] = name
+            if name:
+                self.val[name] = v
+            return
+        try:
+            name, v = betterproto.which_one_of(self.m, g)
+        except Exception as e:  # noqa: BLE001
+            raise Violation("C07.O1", f"which_one_of-raised-{type(e).__name__}", f"after {what}: {e}")
+        name = name or None
+        ok = [a for a in allowed if a[0] == name and (name is None or _eqv(a[1], v))]
+        if not ok:
+            raise Violation("C07.O1", "wrong-member",
+                            f"after {what}: group {g} reports {name}={v!r}; possible were {allowed}")
+        self.sel[g] = name
+        if name:
+            self.val[name] = sorted(ok, key=lambda a: a[1] is ANY)[0][1]
 
     def op_restart(self):
         kind = self.tape.draw(5, "restart")
@@ -331,6 +418,9 @@ class _OneofRun:
         for k, v in src["val"].items():
             mem = self.by_name[k]
             # a fresh, equal value for the copy's model (never share objects between the two models)
+            if v is ANY:
+                model_vals[k] = ANY
+                continue
             idx = next((i for i, var in enumerate(mem.variants) if _eqv(var[0](), v)), None)
             model_vals[k] = mem.variants[idx][0]() if idx is not None else copy.deepcopy(v)
         fork = dict(m=new, sel=dict(src["sel"]), val=model_vals)
@@ -357,9 +447,17 @@ class _OneofRun:
             stream = io.BytesIO(data[:cut])
             pos = 0
             for o in occs:
+                start = pos
                 pos += len(self._wire_of(o))
-                if pos <= cut and o[0] == "m":
-                    allowed[o[1].group].append((o[1].name, o[1].variants[o[2]][0]()))
+                if o[0] != "m":
+                    continue
+                merged = _is_msg(o[1]) and any(a[0] == o[1].name for a in allowed[o[1].group])
+                if pos <= cut:
+                    allowed[o[1].group].append((o[1].name, ANY if merged else o[1].variants[o[2]][0]()))
+                elif start < cut:
+                    # cut inside this occurrence: a decoder may have selected the member before it ran out of
+                    # bytes - exclusivity and consistency (O2-O4) are what the statement keeps, not the value
+                    allowed[o[1].group].append((o[1].name, ANY))
             what = f"EOF at byte {cut}/{len(data)}"
             self.stats["fault:load-interrupted-by-eof-inside-field"] += 1
         else:
@@ -367,13 +465,15 @@ class _OneofRun:
             stream = FaultyStream(data, k)
             for o in occs:
                 if o[0] == "m":
-                    allowed[o[1].group].append((o[1].name, o[1].variants[o[2]][0]()))
+                    allowed[o[1].group].append((o[1].name, ANY if _is_msg(o[1]) else o[1].variants[o[2]][0]()))
             what = f"EIO at read #{k}"
             self.stats["fault:load-interrupted-by-eio"] += 1
         raised = None
         try:
             self.m.load(stream)
         except Exception as e:  # noqa: BLE001
+            if _harness_origin(e) and not isinstance(e, OSError):
+                raise
             raised = type(e).__name__
         if raised:
             self.stats["probe:load-failed-half-way"] += 1
@@ -391,7 +491,7 @@ class _OneofRun:
                                 f"{name}={v!r}; possible were {[(a[0], a[1]) for a in allowed[g]]}")
             self.sel[g] = name
             if name:
-                self.val[name] = ok[0][1]
+                self.val[name] = sorted(ok, key=lambda a: a[1] is ANY)[0][1]
         return f"faulted-load({what}; {self._occ_desc(occs)}) -> {raised or 'returned'}"
 
     # ---- oracle -------------------------------------------------------------------------------
@@ -495,6 +595,8 @@ class _OneofRun:
         except Violation:
             raise
         except Exception as e:  # noqa: BLE001
+            if _harness_origin(e):
+                raise          # a bug of this harness: HARNESS (exit 2), never a verdict on the code
             raise Violation("C07.O1", f"{name}-raised-{type(e).__name__}",
                             f"operation {name} raised {type(e).__name__}: {e} (history so far: {self.trace[-6:]})")
 
@@ -565,6 +667,7 @@ RULES_C14 = {
 }
 
 C14_CLASSES = [Sink, Presence, Containers, Oneofs, Node, Scalars, Leaf]
+RECURSIVE_CLASSES = (Sink, Oneofs, Node)   # a message field leads back to the class itself
 
 
 def _msg_field(fi) -> bool:
@@ -621,7 +724,10 @@ def build_message(tape):
         return cls, cls().parse(data), "decoded"
     if how == 2:
         src = g.message(cls)
-        d = src.to_dict(include_default_values=bool(tape.draw(2, "dict-defaults")))
+        inc = bool(tape.draw(2, "dict-defaults"))
+        if cls in RECURSIVE_CLASSES:
+            inc = False      # include_default_values on a self-referential schema never ends (documented upstream)
+        d = src.to_dict(include_default_values=inc)
         if tape.draw(2, "dict-form"):
             return cls, cls.from_dict(d), "from_dict(class)"
         return cls, cls().from_dict(d), "from_dict(instance)"
@@ -697,17 +803,19 @@ class _ObserverRun:
                 repr(m)
                 return "repr"
             if k in (6, 7, 8):
-                casing = (betterproto.Casing.CAMEL, betterproto.Casing.SNAKE)[t.draw(2, "casing")]
+                ck = t.draw(2, "casing")
+                casing = (betterproto.Casing.CAMEL, betterproto.Casing.SNAKE)[ck]
+                cname = ("CAMEL", "SNAKE")[ck]
                 inc = bool(t.draw(2, "include-defaults"))
                 if k == 6:
                     m.to_dict(casing=casing, include_default_values=inc)
-                    return f"to_dict({casing.name},{inc})"
+                    return f"to_dict({cname},{inc})"
                 if k == 7:
                     m.to_json(casing=casing, include_default_values=inc)
-                    return f"to_json({casing.name},{inc})"
+                    return f"to_json({cname},{inc})"
                 self.stats["probe:to_pydict-called"] += 1
                 m.to_pydict(casing=casing, include_default_values=inc)
-                return f"to_pydict({casing.name},{inc})"
+                return f"to_pydict({cname},{inc})"
             if k == 9:
                 fi = t.choice(ci.fields, "is_set-field") if ci.fields else None
                 if fi:
@@ -733,6 +841,8 @@ class _ObserverRun:
                 m.dump(io.BytesIO(), betterproto.SIZE_DELIMITED)
                 return "dump(delimited)"
         except Exception as e:  # noqa: BLE001
+            if _harness_origin(e):
+                raise          # a bug of this harness, not an observer's answer
             self.stats["observer-raised:" + type(e).__name__] += 1
             name = ("read", "bytes", "len", "==", "bool", "repr", "to_dict", "to_json", "to_pydict", "is_set",
                     "which_one_of", "serialized_on_wire", "dump", "dump")[k]
